@@ -110,6 +110,49 @@ Section DaySim.
   Qed.
 End DaySim.
 
+(* the symmetric form: the six processes return the same under both records, hence the days are equal *)
+Section DayEq.
+  Variables (par par' : DPar R) (crops : Z -> CropFull R) (season : Z) (gs : bool) (dap tsc : Z) (w : Day.W R) (s : DState R).
+  Notation x := (mk_ctx par season gs dap tsc w s).
+  Notation x' := (mk_ctx par' season gs dap tsc w s).
+  Notation prof := (so_prof (p_soil par)).
+  Notation PO := (procs_concrete crops).
+
+  Hypothesis Hcrop : sel_crop par season = sel_crop par' season.
+  Hypothesis Hsoil : p_soil par = p_soil par'.
+  Hypothesis Hwt : p_water_table par = p_water_table par'.
+  Hypothesis Hm4 : (i_method (sel_irr par season) =? 4)%Z = (i_method (sel_irr par' season) =? 4)%Z.
+  Hypothesis Hpi : forall r_rd, c_pi prof (arg_pi x r_rd) = c_pi prof (arg_pi x' r_rd).
+  Hypothesis Hrp : forall r_dr, c_rp prof (arg_rp x r_dr) = c_rp prof (arg_rp x' r_dr).
+  Hypothesis Hir : forall r_rd r_dr r_rp, c_ir prof (arg_ir x r_rd r_dr r_rp) = c_ir prof (arg_ir x' r_rd r_dr r_rp).
+  Hypothesis Hinf : forall r_gw r_rd r_dr r_rp r_ir, c_ir prof (arg_ir x r_rd r_dr r_rp) = Some r_ir ->
+    c_inf prof (arg_inf x r_gw r_dr r_rp r_ir) = c_inf prof (arg_inf x' r_gw r_dr r_rp r_ir).
+  Hypothesis Hev : forall gdd r_rd r_dr r_rp r_ir r_inf r_cr r_ge r_cc, c_ir prof (arg_ir x r_rd r_dr r_rp) = Some r_ir ->
+    c_ev prof (arg_ev x gdd r_ir r_inf r_cr r_ge r_cc) = c_ev prof (arg_ev x' gdd r_ir r_inf r_cr r_ge r_cc).
+  Hypothesis Htr : forall gdd r_rd r_rp r_ir r_ge r_cc r_ev,
+    c_tr crops prof (arg_tr x gdd r_rd r_rp r_ir r_ge r_cc r_ev) = c_tr crops prof (arg_tr x' gdd r_rd r_rp r_ir r_ge r_cc r_ev).
+
+  Theorem day_proc_opt_eq : day_proc_opt par PO season gs dap tsc w s = day_proc_opt par' PO season gs dap tsc w s.
+  Proof.
+    apply opt_eq_of_imp; intros r.
+    - apply day_proc_opt_sim; auto.
+      + intros r_rd r0. rewrite Hpi. auto.
+      + intros r_dr r0. rewrite Hrp. auto.
+      + intros r_rd r_dr r_rp r0. rewrite Hir. auto.
+      + intros r_gw r_rd r_dr r_rp r_ir r0 E. rewrite (Hinf r_gw r_rd r_dr r_rp r_ir E). auto.
+      + intros gdd r_rd r_dr r_rp r_ir r_inf r_cr r_ge r_cc r0 E. rewrite (Hev gdd r_rd r_dr r_rp r_ir r_inf r_cr r_ge r_cc E). auto.
+      + intros gdd r_rd r_rp r_ir r_ge r_cc r_ev r0. rewrite Htr. auto.
+    - apply day_proc_opt_sim; auto; rewrite <- ?Hsoil.
+      + intros r_rd r0. rewrite <- Hpi. auto.
+      + intros r_dr r0. rewrite <- Hrp. auto.
+      + intros r_rd r_dr r_rp r0. rewrite <- Hir. auto.
+      + intros r_gw r_rd r_dr r_rp r_ir r0 E. rewrite <- Hir in E. rewrite <- (Hinf r_gw r_rd r_dr r_rp r_ir E). auto.
+      + intros gdd r_rd r_dr r_rp r_ir r_inf r_cr r_ge r_cc r0 E. rewrite <- Hir in E.
+        rewrite <- (Hev gdd r_rd r_dr r_rp r_ir r_inf r_cr r_ge r_cc E). auto.
+      + intros gdd r_rd r_rp r_ir r_ge r_cc r_ev r0. rewrite <- Htr. auto.
+  Qed.
+End DayEq.
+
 (* ================================================================================================================ *)
 (*  the run loop                                                                                                      *)
 (* ================================================================================================================ *)
@@ -121,15 +164,15 @@ Section RunSim.
   Variable I : Phys -> Prop.
   Variables (c : ClockP) (ws : list W).
 
-  Notation perform := (perform Phys W Row Out proc dead matured summary_of reset).
-  Notation perform' := (perform Phys W Row Out proc' dead matured' summary_of' reset').
-  Notation perform_g := (perform_g Phys W Row Out proc dead matured summary_of reset defined).
-  Notation perform_g' := (perform_g Phys W Row Out proc' dead matured' summary_of' reset' defined').
-  Notation run_steps_g := (run_steps_g Phys W Row Out proc dead matured summary_of reset defined).
-  Notation run_steps_g' := (run_steps_g Phys W Row Out proc' dead matured' summary_of' reset' defined').
-  Notation run_till_g := (run_till_g Phys W Row Out proc dead matured summary_of reset defined).
-  Notation run_till_g' := (run_till_g Phys W Row Out proc' dead matured' summary_of' reset' defined').
-  Notation in_season := (in_season Phys dead).
+  Notation perform := (Clock.perform Phys W Row Out proc dead matured summary_of reset).
+  Notation perform' := (Clock.perform Phys W Row Out proc' dead matured' summary_of' reset').
+  Notation perform_g := (Clock.perform_g Phys W Row Out proc dead matured summary_of reset defined).
+  Notation perform_g' := (Clock.perform_g Phys W Row Out proc' dead matured' summary_of' reset' defined').
+  Notation run_steps_g := (Clock.run_steps_g Phys W Row Out proc dead matured summary_of reset defined).
+  Notation run_steps_g' := (Clock.run_steps_g Phys W Row Out proc' dead matured' summary_of' reset' defined').
+  Notation run_till_g := (Clock.run_till_g Phys W Row Out proc dead matured summary_of reset defined).
+  Notation run_till_g' := (Clock.run_till_g Phys W Row Out proc' dead matured' summary_of' reset' defined').
+  Notation in_season := (Clock.in_season Phys dead).
 
   (* the primed day simulates the unprimed one on the states of the invariant, on the steps that have weather *)
   Hypothesis Hstep : forall season gs dap tsc w s, I s -> nthW W ws tsc = Some w -> defined season gs dap tsc w s = true ->
